@@ -110,6 +110,8 @@ func runCheck(id, tier string) int {
 		return 2
 	}
 	w.StopOnViolation = true
+	// native replays (child processes) read the tier from the environment
+	os.Setenv("VERIF_TIER", tier)
 	// functions the specification names as entry points: informational (a refactor may rename or
 	// inline them); what the evidence reports as encoded is the set of pike functions the engine
 	// actually entered during this run
